@@ -159,6 +159,7 @@ func runC17(c *Ctx) {
 
 	// R17.4 guarded sites
 	guarded, all := mapperGuardedSites(c)
+	judgedTop := map[*ssa.Function]bool{}
 	for _, call := range all {
 		fn := call.Parent()
 		if core.FuncPkg(fn).Path() != relPkg || p.IsTestFile(call.Pos()) {
@@ -168,11 +169,34 @@ func runC17(c *Ctx) {
 		if top.Signature.Recv() == nil || !core.IsNamed(top.Signature.Recv().Type(), relPkg, "Mapper") {
 			continue
 		}
+		judgedTop[top] = true
 		r.Check(guarded[call.(ssa.Instruction)], "R17.4", core.FuncName(fn), "call MapStringsToUUIDs", p.Pos(call.Pos()),
 			"the writing mapping call is on the false branch of m.ReadOnly",
 			"Mapper method calls the writing MapStringsToUUIDs without being on the false branch of m.ReadOnly: a read-only mapper would insert name mappings")
 	}
-	r.Floor("R17.4", 3, "FromQuery, FromTuple, FromSubjectSet")
+	// floor: each of the three mapping directions that take strings does its string-to-UUID
+	// mapping through a call judged above (its own, or that of a helper the three share)
+	r.Floor("R17.4", 1, "the writing mapping call of the Mapper")
+	for _, mn := range []string{"FromQuery", "FromTuple", "FromSubjectSet"} {
+		fn := p.Func("(*internal/relationtuple.Mapper)." + mn)
+		if fn == nil {
+			r.Undecide("R17.4", "", "anchor Mapper."+mn, "", "not found")
+			continue
+		}
+		hit := judgedTop[fn]
+		for _, g := range core.Closures(fn) {
+			core.Instrs(g, func(_ *ssa.BasicBlock, _ int, ins ssa.Instruction) {
+				if ci, ok := ins.(ssa.CallInstruction); ok {
+					if sc := ci.Common().StaticCallee(); sc != nil && judgedTop[core.Outermost(sc)] {
+						hit = true
+					}
+				}
+			})
+		}
+		if !hit {
+			r.Undecide("R17.4", core.FuncName(fn), "writing mapping call", p.Pos(fn.Pos()), "no call of MapStringsToUUIDs (direct or through a Mapper helper) was recognised in this mapping direction")
+		}
+	}
 
 	// R17.2 / R17.5 reachability
 	var roots []*ssa.Function
